@@ -66,6 +66,20 @@ def gen(seed, tier):
         db = eol.join(dirty) + (eol if last_nl else b"")
         cases.append(H("C13-%d-a" % i, o, [blob(0, cb)]))
         cases.append(H("C13-%d-b" % i, o, [blob(0, db)]))
+    # comment-like lines of valid UTF-8 with a multi-byte character starting at every byte offset 0..140 (buffer and
+    # truncation boundaries), of every encoded width, between accepted frames
+    offs = list(range(0, 141))
+    for w, ch in enumerate(["é", "€", "😀"]):
+        for part in range(3 if tier == "quick" else 12):
+            pool = r.sample(ICAOS, 3)
+            clean, dirty = [], []
+            for off in offs[part::(3 if tier == "quick" else 12)] if tier != "quick" else offs[part::3]:
+                f = g.any_frame(r.choice(pool)).encode()
+                dirty.append(g.text_line(off, ch, r.choice([0, 1, 70])))
+                clean.append(f)
+                dirty.append(f)
+            cases.append(H("C13-u%d-%d-a" % (w, part), {}, [blob(0, b"\n".join(clean) + b"\n")]))
+            cases.append(H("C13-u%d-%d-b" % (w, part), {}, [blob(0, b"\n".join(dirty) + b"\n")]))
     # junk between frames of other aircraft while one aircraft is stale: the sweep must come after the same
     # number of ACCEPTED frames in both streams (junk does not count)
     for i in range(60 if tier == "quick" else 600):
@@ -113,7 +127,7 @@ def oracle_all(idx, impl):
 
 
 CLAIM = {
-    "text": "Theorems C13_accepted_subsequence / C13_junk_is_identity / C13_not_utf8 (Coq, closed): for every option record, time, state and list of chunks, running the reader loop equals running it on the subsequence of effective lines (valid UTF-8, taken as a frame, non-zero address, passing -f); an ineffective chunk is the identity on table and counters and prints nothing. Tied to the code by comparing, on the real reader thread, clean streams with the same streams laden with junk (NUL, 0x80-0xFF, overlong/surrogate UTF-8, lone CR, truncated frames, 70 kB lines, CRLF, missing final newline), and both with the extracted model.",
+    "text": "Theorems C13_accepted_subsequence / C13_junk_is_identity / C13_not_utf8 (Coq, closed): for every option record, time, state and list of chunks, running the reader loop equals running it on the subsequence of effective lines (valid UTF-8, taken as a frame, non-zero address, passing -f); an ineffective chunk is the identity on table and counters and prints nothing. AT THE BYTE LEVEL (C13_junk_line_insertion / _state / C13_junk_tail / C13_junk_lines_weave / _last): inserting any junk bytes without LF, plus their LF, at any line boundary of any byte stream -- once or any number of times, with or without a final newline -- leaves the result of read_lines (table and counters) unchanged; byte-level sufficient conditions for junk are proved: not valid UTF-8, a hex-digit count other than 14/26/28/40 whatever else the line holds, the empty line, a lone CR, no hex digit, more than 40 hex digits, fewer than 14 bytes (C13_not_utf8_bytes, C13_wrong_hex_count, C13_empty_line, C13_lone_cr, C13_no_hex, C13_over_long, C13_truncated). Tied to the code by comparing, on the real reader thread, clean streams with the same streams laden with junk (NUL, 0x80-0xFF, overlong/surrogate UTF-8, lone CR, truncated frames, 70 kB lines, CRLF, missing final newline, comment lines with a multi-byte character at every byte offset 0..140), and both with the extracted model.",
     "note": "Line splitting and UTF-8 validation of the standard library are modelled (Model/Line.v) and tied by execution; the TCP source is covered under C18.",
     "technique": "Coq proof by induction over arbitrary line lists + totality; differential runs (impl vs model and impl clean vs impl junk-laden)",
 }
